@@ -316,6 +316,10 @@ func runC03(c *Ctx, r *Report, tier string) {
 			nRq++
 		}
 	}
+	for _, h := range c.instrs(pa, c.isDynCallVia("Parser.UnknownOptionHandler(")) {
+		_, prec := c.Requires(pa, isInstr(h), litHas(false, "nonzero((Parser.Options(P0) & IgnoreUnknown))"), nil)
+		r.Check(prec, "REQUEUE", pn, "IgnoreUnknown passes the token through even when a handler is installed", c.ipos(h), "handler call REQ(¬IgnoreUnknown)", "with IgnoreUnknown set and a handler installed the unknown token is handed to the handler instead of being kept among the remaining arguments")
+	}
 	r.Check(nRq == 1, "REQUEUE", pn, "IgnoreUnknown re-queues the popped token", c.pos(pa.Pos()), "one addArgs whose element is pop()'s result of this iteration", fmt.Sprintf("%d", nRq))
 
 	c.addArgsSkeleton(r, "FILL")
@@ -395,6 +399,39 @@ func runC10(c *Ctx, r *Report, tier string) {
 				}
 			}
 			r.Check(okE, "ORDER", hn, "appended element is the Arg just built", c.ipos(s.Store), "the Arg literal of field i", "appended element is not the Arg literal")
+			// the Arg carries the tag of ITS field (base, description, … of the positional itself), like its value
+			if call, isCall := c.resolve(s.Store.Val).(*ssa.Call); isCall {
+				for _, e := range sliceLitElems(call.Call.Args[1]) {
+					al, isAl := e.(*ssa.Alloc)
+					if !isAl {
+						continue
+					}
+					for _, ref := range *al.Referrers() {
+						fa, ok := ref.(*ssa.FieldAddr)
+						if !ok || fieldObj(fa.X.Type(), fa.Field).Name() != "tag" {
+							continue
+						}
+						for _, r2 := range *fa.Referrers() {
+							st, ok := r2.(*ssa.Store)
+							if !ok {
+								continue
+							}
+							src := ""
+							if u, ok := st.Val.(*ssa.UnOp); ok {
+								if root, ok := c.cellRoot(u.X); ok {
+									if stores, _ := c.cellStores(root); len(stores) == 1 {
+										src = c.term(stores[0].Val)
+									}
+								}
+							}
+							if src == "" {
+								src = c.term(st.Val)
+							}
+							r.Check(src == "call:newMultiTag(StructField.Tag(new:reflect.StructField))", "ORDER", hn, "a positional carries the tag of its own field", c.ipos(st), "Arg.tag = newMultiTag(field.Tag) of the field just scanned", "Arg.tag is "+trunc(src, 100)+": the field's own base/description tags are ignored when the positional is converted")
+						}
+					}
+				}
+			}
 			// only exported fields become positionals (an unexported one cannot be set; it would swallow a token and shift the rest)
 			_, okX := c.Requires(h, isInstr(s.Store), func(l Lit) bool {
 				return !l.Pos && strings.HasPrefix(l.Term, "nonempty(StructField.PkgPath(")
